@@ -1,9 +1,13 @@
 """C13 — checks that are not function contracts.
 
-L  (bounded, exhaustive small scope)  the order lemma  official_order(N - S, O) == [x for x in official_order(N, O) if x not in S]
-   over contracts/spec.py's official_order.  The direct SMT lemma (unfolding, fuel 2) comes back `unknown` from every back end:
-   firsts / the filter / sorted all need induction, so the statement is enumerated instead: all N over a 4-name pool
-   (with '.notdef'), all S over that pool plus a foreign name, all order lists up to a length.
+L  (cross-check of a PROVED lemma)  the order lemma  official_order(N - S, O) == [x for x in official_order(N, O) if x not in S]
+   over contracts/spec.py's official_order is proved in contracts/c13.py by four hand-made inductions (lemmas C13.ord.*).  Here
+   (1) every one of those lemmas is evaluated natively on a small scope (all assignments of its variables over a small pool):
+       wherever the hypotheses hold the conclusion must hold, and the hypotheses must hold somewhere (not vacuous);
+   (2) the two trusted clauses about `sorted` and the definition of the filter (sx_keep == the list comprehension) are compared
+       with the real `sorted` / a real comprehension on every subset / list of the pool;
+   (3) the end statement is still enumerated with the literal comprehension: all N over a 4-name pool (with '.notdef'), all S
+       over that pool plus a foreign name, all order lists up to a length.
 S  (bounded)  the three summaries the deductive part leans on: BaseIFilter.getInterpolatedLayers,
    BaseIFilter.ensureCompositeDefinedAtComponentLocations (frame), util.prune_unknown_kwargs on every pre-processor class.
 K  (bounded)  KernFeatureWriter.getKerningGroups / getKerningPairs prune by glyph-set membership (real functions, generated
@@ -56,6 +60,97 @@ def order_lemma(tier):
                 if official_order(N - S, O) != [x for x in full if x not in S]:
                     return n, {"N": sorted(N), "S": sorted(S), "O": O, "with": official_order(N - S, O), "without": full}
     return n, None
+
+
+def _small_values(ty, pool, maxlen):
+    from pyvc import ty as T
+
+    if ty == T.INT:
+        return list(range(-1, maxlen + 2))
+    if ty == T.STR:
+        return list(pool)
+    if isinstance(ty, T.Set):
+        return [set(c) for k in range(len(pool) + 1) for c in itertools.combinations(pool, k)]
+    if isinstance(ty, T.List):
+        return [list(o) for ln in range(maxlen + 1) for o in itertools.product(pool, repeat=ln)]
+    raise ValueError(f"no small scope for {ty}")
+
+
+def lemmas_native(tier):
+    """every lemma C13.ord.* evaluated natively: hypotheses => conclusion on all small assignments (and satisfiable hypotheses)"""
+    from pyvc import api, rt
+
+    import contracts.c13 as c13
+
+    pool = [".notdef", "a", "b"] if tier == "quick" else [".notdef", "a", "b", "c"]
+    maxlen = 2 if tier == "quick" else 3
+    env0 = {"implies": rt.implies, "iff": rt.iff, "ite": rt.ite, "elems": rt.elems, "distinct": rt.distinct}
+    env0.update({n: sf.fn for n, sf in api.SPECFNS.items()})
+    total, report, bad = 0, {}, []
+    for short in c13.ORDER_LEMMAS:
+        lm = api.LEMMAS["C13.ord." + short]
+        hyps = [compile(rt.parse_clause(h), "<hyp>", "eval") for h in lm.hyps]
+        concl = [(k, compile(rt.parse_clause(c), "<concl>", "eval")) for k, c in lm.concl.items()]
+        names = list(lm.vars)
+        # lists x lists x sets x ... : keep the product small (second and later lists over a shorter length)
+        doms, seen_list = [], 0
+        for n in names:
+            t = lm.vars[n]
+            ml = maxlen
+            if t.__class__.__name__ == "List":
+                seen_list += 1
+                ml = maxlen if seen_list == 1 else max(1, maxlen - 1)
+            doms.append(_small_values(t, pool, ml))
+        held = 0
+        for vals in itertools.product(*doms):
+            env = dict(env0)
+            env.update(zip(names, vals))
+            try:
+                if not all(eval(h, env) for h in hyps):
+                    continue
+            except (IndexError, KeyError):
+                continue
+            held += 1
+            for k, c in concl:
+                if not eval(c, env):
+                    bad.append({"lemma": lm.name, "conclusion": k, "assignment": {n: (sorted(v) if isinstance(v, set) else v) for n, v in zip(names, vals)}})
+                    break
+            if bad:
+                break
+        report[short] = held
+        total += held
+        if bad:
+            break
+    return total, report, bad
+
+
+def sorted_conformance(tier):
+    """the trusted clauses about `sorted` (contracts/c13.py SORTED_TRUSTED) and the definition of sx_keep, against real Python"""
+    from pyvc import api, rt
+
+    import contracts.c13 as c13
+
+    pool = [".notdef", "A", "a", "b", "ab", "z"] if tier == "quick" else [".notdef", "A", "a", "b", "ab", "z", "", "\u00e9", "a.alt"]
+    env0 = {"implies": rt.implies, "iff": rt.iff}
+    codes = {k: compile(rt.parse_clause(c), "<trusted>", "eval") for k, c in c13.SORTED_TRUSTED.items()}
+    n, bad = 0, []
+    subsets = [set(c) for k in range(len(pool) + 1) for c in itertools.combinations(pool, k)]
+    for X in subsets:
+        for m in pool:
+            for k, code in codes.items():
+                n += 1
+                if not eval(code, {**env0, "X": X, "m": m}):
+                    bad.append({"clause": k, "X": sorted(X), "m": m})
+        # every non-empty finite set has a greatest element (the induction scheme of C13.ord.sorted.*)
+        if X and not any(all(x <= m for x in X) for m in X):
+            bad.append({"clause": "greatest-exists", "X": sorted(X)})
+    keep = api.SPECFNS["sx_keep"].fn
+    for L in (list(o) for ln in range(4) for o in itertools.product(pool[:4], repeat=ln)):
+        for S in subsets[:: max(1, len(subsets) // 16)]:
+            n += 1
+            if keep(L, S) != [x for x in L if x not in S]:
+                bad.append({"clause": "sx_keep == comprehension", "L": L, "S": sorted(S)})
+    return n, bad
 
 
 # ---- S: summaries -----------------------------------------------------------------------------------------------------------
@@ -474,10 +569,32 @@ def _run(tier, seed, res):
     n, bad = order_lemma(tier)
     res["evaluations"] += n
     res["distinct"] += n
-    res["bounded"].append({"what": "order lemma official_order(N-S,O) == [x in official_order(N,O) | x not in S] (SMT: unknown, needs induction)",
+    res["bounded"].append({"what": "cross-check of the PROVED order lemma (lemmas C13.ord.*): end statement official_order(N-S,O) == [x in official_order(N,O) | x not in S] enumerated",
                            "bound": f"all N over 4 names incl. .notdef x all S over 5 names x all order lists up to length {2 if tier == 'quick' else 4}: {n} cases", "failures": 0 if bad is None else 1})
     if bad is not None:
         res["violations"].append(_violation("C13.lemma.order", {"input": bad, "clause": "official_order(N - S, O) == [x for x in official_order(N, O) if x not in S]"}))
+    try:
+        tot, rep, lbad = lemmas_native(tier)
+        res["evaluations"] += tot
+        res["bounded"].append({"what": "cross-check: every lemma C13.ord.* evaluated natively (hypotheses => conclusion) on all small assignments",
+                               "bound": "assignments with true hypotheses per lemma: " + ", ".join(f"{k}={v}" for k, v in rep.items()), "failures": len(lbad)})
+        for b in lbad[:2]:
+            res["violations"].append(_violation("C13.lemma.native." + b["lemma"], {"input": b["assignment"], "clause": b["conclusion"], "what": "a lemma of the order proof is FALSE on this assignment (mis-stated lemma)"}))
+        if not lbad:
+            for k, v in rep.items():
+                if v == 0:
+                    res["checker_errors"].append(f"C13 order proof: the hypotheses of lemma C13.ord.{k} hold on no small assignment (vacuous lemma?)")
+        ns, sbad = sorted_conformance(tier)
+        res["evaluations"] += ns
+        res["bounded"].append({"what": "conformance of the TRUSTED clauses about sorted() (empty; greatest element last) and of sx_keep == list comprehension with real Python",
+                               "bound": f"{ns} evaluations over all subsets of a pool of strings (mixed case, prefix pairs, '.notdef')", "failures": len(sbad)})
+        for b in sbad[:2]:
+            res["violations"].append(_violation("C13.trusted.sorted." + b["clause"].split()[0], {"input": b, "what": "a trusted clause about sorted() / the filter definition does not hold for real Python"}))
+    except Exception:
+        res["checker_errors"].append("C13 lemma cross-check crashed: " + traceback.format_exc()[-800:])
+    res["trusted"] += ["sorted(X) of a finite set of strings = its increasing enumeration, in the form: sorted(empty) == []; m greatest of X => sorted(X) == sorted(X - {m}) + [m] (lemmas C13.ord.sorted.*)"]
+    res["assumptions"] += ["induction schemes of the order proof (natural numbers; finite sets by removing the greatest element) are applied at the meta level: each is a base lemma + a step lemma",
+                           "glyph name sets are finite"]
     # S
     try:
         ev, fails = summaries(tier, seed)
